@@ -167,7 +167,7 @@ func c05guard(p *Program, r *Report, env *lockEnv, rule string, only map[string]
 	}
 	// swPool global
 	if only == nil {
-		if g, ok := p.Main.Members["swPool"].(*ssa.Global); ok {
+		if g, ok := p.member("swPool").(*ssa.Global); ok {
 			for _, fn := range p.Funcs {
 				for _, b := range fn.Blocks {
 					for _, in := range b.Instrs {
